@@ -112,6 +112,8 @@ theorem resolveRes_id (st : Static) (defs defs' : Defs) (ctx : RCtx) (ref : Nat)
     split at h
     · cases h
     · rename_i n hn
+      split at h
+      · cases h
       rcases ite_ok_inv _ _ _ _ h with ⟨_, h⟩ | ⟨hc, h⟩
       · injection h with h; injection h with _ h2; injection h2 with h2 _; cases h2
       · injection h with h; injection h with h1 _
